@@ -295,7 +295,7 @@ def oracle(case, out):
                 bad("path_points_lie_on_mesh_edges_at_level", f"max distance to a crossing point {max(dmin)}")
             # all crossing points are represented (up to merging)
             far = [float(np.linalg.norm(pts - q, axis=1).min()) for q in nodes]
-            if max(far) > merge_tol:
+            if max(far) > merge_tol + 4 * rt * sc:      # rt * sc: how far rounding of the interpolation parameter moves a point
                 bad("path_visits_every_crossing_point", f"a crossing point is {max(far)} away from the path")
             if len(pts) > len(nodes):
                 bad("path_has_at_most_one_point_per_crossed_edge", f"{len(pts)} points, {len(nodes)} crossed edges")
